@@ -9,7 +9,7 @@ freeze, add-after-freeze) against a list model, every query compared after every
 import random
 
 from vmon import env  # noqa: F401
-from vmon.simkit import Top, Mon, simulate, bits
+from vmon.simkit import Top, Mon, simulate, bits, reset_plan, drive_reset
 
 from amaranth_soc import event
 
@@ -87,10 +87,12 @@ def run_case(case):
     st = {"prev_i": [0] * n, "pending": 0, "nontrivial": False}
     mask = (1 << n) - 1
     burst = {"i": 0, "clear": 0, "enable": 0}
+    resets = reset_plan(case["cycles"])
 
     async def bench(ctx):
         for c in range(case["cycles"]):
             mon.cycle = c
+            drive_reset(ctx, c in resets)
             for key, p in (("i", 0.5), ("clear", 0.5), ("enable", 0.3)):
                 if rng.random() < p:
                     burst[key] = rng.choice([bits(rng, n), bits(rng, n) & bits(rng, n), mask, 0,
@@ -120,6 +122,10 @@ def run_case(case):
                 mon.bin(f"state:n{n}", (st["pending"], trg_exp, clear))
             st["pending"] = ((st["pending"] & ~clear) | trg_exp) & mask
             st["prev_i"] = [(i_vec >> k) & 1 for k in range(n)]
+            if c in resets:
+                # warm reset: nothing pending, previous inputs low again ("initially low")
+                st["pending"], st["prev_i"] = 0, [0] * n
+                mon.count("warm_resets")
             await ctx.tick()
 
     simulate(Top({"mon": dut}), bench, mon)
